@@ -813,7 +813,7 @@ class SimNet:
                         raise
                 ep.send_closed.add(sid)
         elif kind == "stop":
-            if sid in ep.known_streams:
+            if sid in ep.known_streams or (side, sid) in self.written:
                 try:
                     self.call(ep, "stop_stream", sid, op.get("code", 9))
                     self.stop_requested.add((side, sid))
